@@ -12,7 +12,7 @@ import numpy as np
 
 from .oracle import refq
 
-ENTRY_CLASSES = ["gauss", "int", "pure_imag", "single_axis", "zeros", "sparse", "mixed_mag", "huge", "tiny", "nonpos", "nonneg", "nonpos_sparse"]
+ENTRY_CLASSES = ["gauss", "int", "pure_imag", "single_axis", "zeros", "sparse", "mixed_mag", "huge", "tiny", "nonpos", "nonneg", "nonpos_sparse", "sum_zero"]
 
 
 def rng_for(seed: int, *key) -> np.random.Generator:
@@ -49,6 +49,12 @@ def entries(rng, cls: str, m: int, n: int) -> np.ndarray:
         c = -np.abs(rng.standard_normal((m, n, 4)))
     elif cls == "nonneg":
         c = np.abs(rng.standard_normal((m, n, 4)))
+    elif cls == "sum_zero":          # exact cancellations between components: x + y + z = 0 (and sometimes w + x + y + z = 0)
+        c = np.round(rng.standard_normal((m, n, 4)) * 3.0)
+        c[..., 3] = -(c[..., 1] + c[..., 2])
+        if rng.random() < 0.5:
+            c[..., 0] = 0.0
+        c = c * (rng.random((m, n, 1)) < 0.7)
     elif cls == "nonpos_sparse":
         c = -np.abs(rng.standard_normal((m, n, 4))) * (rng.random((m, n, 1)) < 0.4)
         if rng.random() < 0.5:
